@@ -11,7 +11,7 @@
    `pool_src_switches` is read from the Go source on every run (Gen/PoolSrc.v).  The theorems are stated for the
    code that is in the tree: if one of the repaired spots regresses, `exact` below no longer type-checks. *)
 From Coq Require Import List ZArith Bool.
-From MV Require Import Model.Pool Model.PoolMx Gen.PoolSrc Proofs.Pool Proofs.PoolMx.
+From MV Require Import Model.Pool Model.PoolMx Gen.PoolSrc Proofs.Pool Proofs.PoolMx Model.PoolInit Proofs.PoolInit.
 Import ListNotations.
 Open Scope Z_scope.
 
@@ -180,3 +180,43 @@ Example c09_defect_multiplex_goaway :
   let q := fst (mstep k p (MConnClose 0 EvRemote)) in
   mslot q = SEmpty /\ mclosed q 1 = false /\ mnclients (fst (mstep k q (MInit DialOk))) = 3%nat.
 Proof. vm_compute. repeat split; reflexivity. Qed.
+
+(* ============================================================================================================ *)
+(* Inside ONE operation: the connect paths as micro-steps (Model/PoolInit.v) interleaved, under EVERY schedule of any
+   length (Lib/Interleave), with the read goroutine of the new connection that delivers its close event.
+   `poolinit_src_mx_dial_locked` is read from the source: is the dial of poolMultiplex.init inside the clientMux critical
+   section that also stores the client (today: yes). *)
+
+(* Multiplex init(): in every reachable configuration a client stored as Connected is open, or the close handler of its
+   connection has not run yet (it will run under clientMux and find the client in the slot); so once both goroutines are
+   done a stored client is open: no closed connection is left in the slot, none is handed out. *)
+Theorem c09_multiplex_init_safe : forall sched,
+  mx_init_good (irun sched (mx_init_cfg poolinit_src_mx_dial_locked)) = true /\
+  (let c := irun sched (mx_init_cfg poolinit_src_mx_dial_locked) in
+   fst c = [[]; []] -> i_slot (snd c) = 2%nat -> i_closed (snd c) = false).
+Proof. exact (fun sched => conj (mx_init_locked_safe sched) (mx_init_locked_quiescent sched)). Qed.
+Print Assumptions c09_multiplex_init_safe.
+
+(* With the dial outside the critical section the statement is false: a schedule lets the close event run between the
+   dial and the store; the closed client is then stored as Connected for good. *)
+Definition c09_multiplex_init_unlocked_statement : Prop :=
+  forall sched, let c := irun sched (mx_init_cfg false) in
+  fst c = [[]; []] -> i_slot (snd c) = 2%nat -> i_closed (snd c) = false.
+Theorem c09_multiplex_init_unlocked_refuted : ~ c09_multiplex_init_unlocked_statement.
+Proof.
+  intros H. destruct mx_init_unlocked_bad as [sched [H1 [H2 H3]]]. specialize (H sched H1 H2). congruence.
+Qed.
+Print Assumptions c09_multiplex_init_unlocked_refuted.
+
+(* Ping-pong and HTTP/1 connect paths (no idle client): whatever the interleaving with the close event of the new
+   connection, when both goroutines are done totalClientCount counts exactly the open connection and the closed flag is
+   set iff the connection closed.  (In between, the ping-pong counter can be -1: the event's Dec may precede the Inc.) *)
+Theorem c09_connect_books : forall sched,
+  count_good (irun sched pp_connect_cfg) = true /\ count_good (irun sched http_connect_cfg) = true.
+Proof. exact (fun sched => conj (pp_connect_books sched) (http_connect_books sched)). Qed.
+Print Assumptions c09_connect_books.
+
+Example c09_init_example :
+  irun [0;0;1;0;1;0;1;1;1]%nat (mx_init_cfg poolinit_src_mx_dial_locked) =
+    ([[]; []], mkISh false true true 0%nat 0 false).
+Proof. vm_compute. reflexivity. Qed.
